@@ -466,6 +466,55 @@ func runC01(c *Ctx) error {
 			}
 		}
 	}
+	// ---- (F) 64-bit integers beyond 2^53, where float64 no longer tells neighbours apart: value at bound-1, bound, bound+1
+	for _, rl := range sizeRules {
+		for _, b := range []int64{1 << 53, 1<<53 + 1, 1 << 62, 9223372036854775806, -(1 << 53), -(1<<62 + 1)} {
+			for _, dv := range []int64{-1, 0, 1} {
+				for _, kind := range []string{"int64", "int", "uint64", "uint"} {
+					val := b + dv
+					if (kind == "uint64" || kind == "uint") && val < 0 {
+						continue
+					}
+					var v interface{}
+					switch kind {
+					case "int64":
+						v = val
+					case "int":
+						v = int(val)
+					case "uint64":
+						v = uint64(val)
+					default:
+						v = uint(val)
+					}
+					marker++
+					mk := fmt.Sprintf("M%d", marker)
+					lo2, hi2 := b, b
+					var text string
+					switch rl {
+					case "to", "oto":
+						lo2, hi2 = b-1, b
+						if b == -(1<<62 + 1) {
+							lo2, hi2 = b, b+1
+						}
+						text = fmt.Sprintf("%s=%d~%d", rl, lo2, hi2)
+					case "le", "lt":
+						lo2 = 0
+						text = fmt.Sprintf("%s=%d", rl, hi2)
+					default:
+						hi2 = 0
+						text = fmt.Sprintf("%s=%d", rl, lo2)
+					}
+					text += "|" + mk
+					call := &walkCall{Entry: "var", VarRules: []string{text}, Src: v}
+					spec := fmt.Sprintf("SSize %s %s %s %s %s", sizeRuleCtor[rl], galZ(lo2), galZ(hi2), galVal(reflect.ValueOf(v), nil), gal.Str(mk))
+					term, desc := call.caseTerm([]string{spec})
+					desc["rule"] = text
+					w.Add("CW ("+term+")", desc, fmt.Sprintf("beyond-2^53:%s:%s:%d", rl, kind, dv))
+					w.Count("directed.beyond-2^53")
+				}
+			}
+		}
+	}
 	w.Extra["evaluations"] = sweepTotal + marker
 	return w.Flush()
 }
